@@ -107,12 +107,12 @@ private def serve : List SExp → SExp
   | _ => err
 
 private def substore : List SExp → SExp
-  | [acc, .nat reqCtx, .nat ab] =>
-    match accOf acc with
-    | some a =>
-      let r := cStoreScp a reqCtx ab
-      .list [SExp.ofOptNat (r.handler.map (·.id)), .nat r.rspCtx, SExp.ofBool r.refused, SExp.ofBool r.aborted]
-    | none => err
+  | [acc, .nat reqCtx, .nat ab, g] =>
+    match accOf acc, boolOf g with
+    | some a, some guard =>
+      let r := cStoreScp guard a reqCtx ab
+      .list [SExp.ofOptNat (r.handler.map (·.id)), SExp.ofOptNat r.rspCtx, SExp.ofBool r.refused, SExp.ofBool r.aborted]
+    | _, _ => err
   | _ => err
 
 private def optBoolOf : SExp → Option (Option Bool)
